@@ -55,6 +55,10 @@ func topicOf(t string) string {
 	if t == "none" {
 		return ""
 	}
+	if t == "t2" {
+		// a long topic name: the encoded head grows with it
+		return "/indexer/ingest/" + t + "/" + strings.Repeat("long-topic-name/", 20)
+	}
 	return "/indexer/ingest/" + t
 }
 
@@ -242,6 +246,9 @@ func RunC03(args []string) *rep.Report {
 		if idx%8 == 0 {
 			kts = append(kts, "rsa")
 		}
+		if idx%16 == 4 {
+			kts = append(kts, "rsa4096") // the largest encoded heads: a 4096-bit key and signature
+		}
 		for _, kt := range kts {
 			sh, err := craft(hc, kt)
 			if err != nil {
@@ -405,8 +412,8 @@ func RunC03(args []string) *rep.Report {
 		r.SetExtra("read_error", err.Error())
 	}
 	// publisher side: whatever root / topic a real Publisher is given, the head it serves verifies for Publisher.ID()
-	for _, kt := range []string{"ed25519", "secp256k1", "ecdsa", "rsa"} {
-		for _, topic := range []string{"", "/indexer/ingest/mainnet"} {
+	for _, kt := range []string{"ed25519", "secp256k1", "ecdsa", "rsa", "rsa4096"} {
+		for _, topic := range []string{"", "/indexer/ingest/mainnet", topicOf("t2")} {
 			for _, h := range []string{"h1", "h2"} {
 				if d := publisherServes(kt, topic, h); d != "" {
 					r.Diverge(rep.Divergence{Key: "publisher-head-invalid", Detail: d})
